@@ -53,21 +53,25 @@ Empty == [v \in Vars |-> <<>>]
 SetVal(e, v, x)  == [e EXCEPT ![v] = <<x>>]
 PushVal(e, v, x) == [e EXCEPT ![v] = IF e[v] = <<>> THEN <<<<x>>>> ELSE <<Append(e[v][1], x)>>]
 
-Completed(e) == \A v \in Required : e[v] # <<>>
+CompletedV(e) == \A v \in Required : e[v] # <<>>
 
+Completed(e) == Let1(e, LAMBDA x : CompletedV(x))
 \* ---- printing --------------------------------------------------------------------
 LineOf(v, x) == VarTable[v].name \o <<EQ>> \o x \o <<NL>>
-RenderVar(e, v) ==
+RenderVarV(e, v) ==
     IF e[v] = <<>> THEN <<>>
     ELSE IF VKind(v) = "A" THEN Flatten([i \in 1..Len(e[v][1]) |-> LineOf(v, e[v][1][i])])
     ELSE LineOf(v, e[v][1])
-Render(e) == Flatten([v \in Vars |-> RenderVar(e, v)])
+RenderVar(e, v) == Let1(e, LAMBDA x : RenderVarV(x, v))
+RenderV(e) == Flatten([v \in Vars |-> RenderVar(e, v)])
+Render(e) == Let1(e, LAMBDA x : RenderV(x))
 \* number of printed lines = number of values
-ValueCount(e) == LET n(v) == IF e[v] = <<>> THEN 0 ELSE IF VKind(v) = "A" THEN Len(e[v][1]) ELSE 1
+ValueCountV(e) == LET n(v) == IF e[v] = <<>> THEN 0 ELSE IF VKind(v) = "A" THEN Len(e[v][1]) ELSE 1
                      RECURSIVE Sum(_)
                      Sum(v) == IF v = 0 THEN 0 ELSE n(v) + Sum(v - 1)
                  IN Sum(NV)
 
+ValueCount(e) == Let1(e, LAMBDA x : ValueCountV(x))
 \* ---- parsing ---------------------------------------------------------------------
 \* one line: <<"ok", v, value>> or <<"err", kind, argument>>
 ParseLine(line) ==
@@ -81,30 +85,38 @@ ParseLine(line) ==
                  (IF IsI64Text(x) THEN <<"ok", v, I64Print(I64Value(x))>> ELSE <<"err", "ParseInt", <<>>>>)
             ELSE <<"ok", v, x>>
 
-RECURSIVE ParseLines(_, _, _)
-ParseLines(ls, i, e) ==
+\* the lines in order, stopping at the first one that is an error (a fold; ParseLinesRef is the
+\* same as a recursion, compared in MC_SummaryParse)
+ParseLinesV(ls, i0, e0) ==
+    LET step(st, i) == IF st[1] = "err" THEN st
+                       ELSE LET r == ParseLine(ls[i]) IN
+                            IF r[1] = "err" THEN r
+                            ELSE <<"ok", IF VKind(r[2]) = "A" THEN PushVal(st[2], r[2], r[3]) ELSE SetVal(st[2], r[2], r[3])>>
+    IN FoldL(step, <<"ok", e0>>, SubSeq(Idx(ls), i0, Len(ls)))
+ParseLines(ls, i0, e0) == Let1(ls, LAMBDA x : ParseLinesV(x, i0, e0))
+RECURSIVE ParseLinesRef(_, _, _)
+ParseLinesRef(ls, i, e) ==
     IF i > Len(ls) THEN <<"ok", e>>
     ELSE LET r == ParseLine(ls[i]) IN
          IF r[1] = "err" THEN r
-         ELSE ParseLines(ls, i + 1, IF VKind(r[2]) = "A" THEN PushVal(e, r[2], r[3]) ELSE SetVal(e, r[2], r[3]))
+         ELSE ParseLinesRef(ls, i + 1, IF VKind(r[2]) = "A" THEN PushVal(e, r[2], r[3]) ELSE SetVal(e, r[2], r[3]))
 
 MissingFirst(e) == LET M == {v \in Required : e[v] = <<>>} IN CHOOSE v \in M : \A w \in M : v <= w
 
 \* Summary::from_str as implemented: first error in line order, then the first missing variable
-Parse(t) ==
-    LET r == ParseLines(Lines(t), 1, Empty) IN
+ParseV(r) ==
     IF r[1] = "err" THEN r
     ELSE IF ~Completed(r[2]) THEN <<"err", "Incomplete", VarTable[MissingFirst(r[2])].name>>
     ELSE r
+Parse(t) == Let1(ParseLines(Lines(t), 1, Empty), ParseV)
 
 \* the property: every cause present in the text; parsing succeeds iff there is none, and a
 \* failure must name one of them (which one is not fixed when there are several)
-Causes(t) ==
-    LET ls == Lines(t)
-        rs == [i \in 1..Len(ls) |-> ParseLine(ls[i])]
-        bad == { <<rs[i][2], rs[i][3]>> : i \in {j \in 1..Len(ls) : rs[j][1] = "err"} }
-        present == { rs[i][2] : i \in {j \in 1..Len(ls) : rs[j][1] = "ok"} }
+CausesV(rs) ==          \* rs: the outcome of every line
+    LET bad == { <<rs[i][2], rs[i][3]>> : i \in {j \in 1..Len(rs) : rs[j][1] = "err"} }
+        present == { rs[i][2] : i \in {j \in 1..Len(rs) : rs[j][1] = "ok"} }
     IN bad \cup { <<"Incomplete", VarTable[v].name>> : v \in Required \ present }
+Causes(t) == Let1(Lines(t), LAMBDA ls : Let1([i \in 1..Len(ls) |-> ParseLine(ls[i])], CausesV))
 
 \* pkgbase() / pkgversion(): the parts of PKGNAME (variable 16) before / after its last '-';
 \* None when PKGNAME is unset, has no '-', or the part is empty
@@ -116,12 +128,11 @@ AccVer(e)  == IF PkgnameOf(e) = <<>> THEN <<>>
               ELSE LET nm == PkgnameOf(e)[1]  i == LastPos(nm, DASH) IN
                    IF i = 0 \/ i = Len(nm) THEN <<>> ELSE <<SubSeq(nm, i + 1, Len(nm))>>
 \* description_as_str(): the DESCRIPTION lines (variable 6) joined with newlines
-DescStr(e) == IF e[6] = <<>> THEN <<>>
+DescStrV(e) == IF e[6] = <<>> THEN <<>>
               ELSE LET ls == e[6][1]
-                       RECURSIVE J(_)
-                       J(i) == IF i > Len(ls) THEN <<>> ELSE IF i = Len(ls) THEN ls[i] ELSE ls[i] \o <<NL>> \o J(i + 1)
-                   IN <<J(1)>>
+                   IN <<IF ls = <<>> THEN <<>> ELSE Flatten([i \in 1..(2 * Len(ls) - 1) |-> IF i % 2 = 1 THEN ls[(i + 1) \div 2] ELSE <<NL>>])>>
 
+DescStr(e) == Let1(e, LAMBDA x : DescStrV(x))
 \* canonical text: what Print produces (for the parse -> print direction of C07)
 Canonical(t) == LET r == Parse(t) IN r[1] = "ok" /\ Render(r[2]) = t
 =============================================================================
